@@ -9,7 +9,7 @@ from .common import coq_eval, parse_nested, pmap, load_known
 INT_COLS = ["size", "uid", "gid", "hardlinks", "length(name)"]
 STR_COLS = ["name", "path", "ext", "dir", "mode"]
 BOOL_COLS = ["is_dir", "is_file", "is_symlink", "is_hidden", "user_read", "user_write", "user_exec", "group_read", "other_write", "other_exec", "suid", "sgid", "user_all"]
-OPS = {"eq": ["=", "==", "eq"], "ne": ["!=", "<>", "ne"], "eeq": ["==="], "ene": ["!=="], "gt": [">", "gt"], "ge": [">=", "gte", "ge"],
+OPS = {"eq": ["=", "==", "eq"], "ne": ["!=", "<>", "ne"], "eeq": ["===", "eeq"], "ene": ["!==", "ene"], "gt": [">", "gt"], "ge": [">=", "gte", "ge"],
        "lt": ["<", "lt"], "le": ["<=", "lte", "le"]}
 UNITS = {"": 1, "b": 1, "k": 1024, "kib": 1024, "kb": 1000, "m": 1024 ** 2, "mib": 1024 ** 2, "mb": 1000 ** 2, "g": 1024 ** 3, "gib": 1024 ** 3, "gb": 1000 ** 3}
 TRUE_WORDS = ["true", "1", "yes", "y", "TRUE", "Yes", "Y"]
@@ -137,9 +137,6 @@ def run(ctx):
                 v = v.swapcase()
             if not v or "*" in v or "?" in v or qlib.quote(v) is None:
                 continue
-            low = v.lower()
-            if low in FIELD_WORDS():
-                continue            # F44: a quoted literal spelling a column/function name is not taken as text
             atoms.append(dict(kind="str", col=col, opk=opk, text="%s %s %s" % (col, op, qlib.quote(v)), lit=v))
         elif kind == "bool":
             if opk not in ("eq", "ne", "eeq", "ene"):
